@@ -60,7 +60,7 @@ func init() {
 		Real:   nReal, Stubbed: nStub, Assume: append([]string{"porcupine histories bounded to <=4 clients x <=8 ops per phase; Unknown (timeout) counted as inconclusive"}, nAssume...),
 	})
 	c04 := checkDefs["C04"]
-	c04.Scens = []scenBudget{{"sl", 30000, 1000000}, {"nitro_race", 10000, 400000}, {"nitro", 6000, 200000}}
+	c04.Scens = []scenBudget{{"sl", 24000, 1000000}, {"nitro_race", 8000, 400000}, {"nitro", 5000, 200000}}
 	c04.Real = append(c04.Real, nReal...)
 	defCheck(&checkDef{Prop: "C06", Level: "exploration",
 		Scens:  []scenBudget{{"nitro_gc", 14000, 500000}, {"nitro", 8000, 250000}, {"nitro_backlog", 160, 4000}},
@@ -98,7 +98,7 @@ func init() {
 
 	dStub := append([]string{"disk faults: VerifWrapWriter substitutes the writer below bufio (ENOSPC budget, EIO, short write), VerifFS fails open/WriteFile/close boundaries; process death = copy of the real directory at a file-system boundary", "DiskBlockSize and shard count drawn per run"}, nStub...)
 	defCheck(&checkDef{Prop: "C05", Level: "exploration",
-		Scens:  []scenBudget{{"backup", 12000, 500000}},
+		Scens:  []scenBudget{{"backup", 9000, 500000}},
 		Rule:   nitroRule("1-4 phases of history, StoreToDisk of any open snapshot as a task while writers, snapshot churn, closers and GC continue (delta on/off, 1-33 shards, block size 16B-512KiB), then LoadFromDisk into a fresh instance with the same configuration (concurrency 1-8), exact comparison, independent re-parse of every file, delta accounting, structural walk, and 0-2 further phases on the restored instance against the reference set"),
 		Real:   nReal, Stubbed: dStub, Assume: nAssume,
 		WarnProbe: []string{"item_only_in_delta", "item_in_data_and_delta", "delta_records_written"},
